@@ -415,6 +415,15 @@ pub fn checked_build(ctx: &Ctx, spec: &NodeSpec) -> BuildObs {
     let mutated: Vec<(String, &crate::node::TraceLine)> = run
         .mutating()
         .filter(|t| t.res >= 0 && t.op != "close" && t.op != "rename-from")
+        // opening an existing file read-write (or with O_CREAT alone) changes nothing: only an
+        // open that truncates counts; a sync is not a mutation either.  `rename-from` lines were
+        // dropped above, but the *source* of a rename is mutated too: handled through existence.
+        .filter(|t| {
+            let is_open = t.op.starts_with("open") || t.op == "creat";
+            let truncating = (t.arg & 0o1000) != 0; // O_TRUNC
+            let created = is_open && (t.arg & 0o100) != 0; // O_CREAT: may have created the file
+            !(t.op == "fsync" || t.op == "fdatasync") && (!is_open || truncating || created)
+        })
         .filter_map(|t| t.rel.as_ref().map(|r| (canon_rel(&root, r), t)))
         .collect();
     let mut files_obs = Vec::new();
@@ -519,7 +528,12 @@ pub fn checked_build(ctx: &Ctx, spec: &NodeSpec) -> BuildObs {
                         if !any_force {
                             probes.skipped_current += 1;
                             // untouched: no mutating op on that path, same inode and mtime
-                            let touched: Vec<String> = mutated.iter().filter(|(c, _)| *c == canon_out).map(|(_, t)| format!("{}#{}", t.op, t.seq)).collect();
+                            // an O_CREAT open of a file that exists (it does: it was current) changes nothing
+                            let touched: Vec<String> = mutated
+                                .iter()
+                                .filter(|(c, t)| *c == canon_out && !((t.op.starts_with("open") || t.op == "creat") && (t.arg & 0o1000) == 0))
+                                .map(|(_, t)| format!("{}#{}", t.op, t.seq))
+                                .collect();
                             let post_id = file_id(&out_abs);
                             if !touched.is_empty() || post_id != e.pre_id {
                                 failures.push(fail(
